@@ -112,6 +112,22 @@ def run(ck):
             if c2['i'] > call['i'] and c2['name'] in ('write', 'pwrite64', 'writev', 'fsync', 'close', 'rename', 'ftruncate'):
                 for e2 in (E.ENOSPC, E.EIO):
                     jobs.append((c, cmd, o1 + ['--failnr', '%d:%d:%d' % (c2['i'], e2, c2['nr'])], 'createfail%d+fail@%d(%s):%d' % (e, c2['i'], c2['name'], e2), c2))
+    # second level after a failing NON-data call (rename, fsync, close, fchmod, fchown, unlink ...): the failure persists for every later
+    # call of the same system call (a device that stays broken), and the process is killed at every boundary after a single failure
+    # (whatever the error path does next - retry, fall back, clean up - must itself leave old or new content at every instant)
+    lvl2 = []
+    for (c, cmd, _), rep in zip(base_jobs, bases):
+        if (c, cmd) not in expect:
+            continue
+        for call in rep['calls']:
+            if call['name'] in WRITE_TYPE and call['name'] not in ('write', 'pwrite64', 'writev', 'openat', 'open', 'lseek'):
+                for e in ((E.EIO,) if ck.tier == 'quick' else (E.EIO, E.ENOSPC, E.EDQUOT)):
+                    jobs.append((c, cmd, ['--failfrom', '%d:%d' % (call['i'], e)], 'persistentfail@%d(%s):%d' % (call['i'], call['name'], e), call))
+                    lvl2.append((c, cmd, ['--fail', '%d:%d' % (call['i'], e)], call, e))
+    for (c, cmd, o1, call, e), rep1 in zip(lvl2, pmap(lambda j: one(j[:3]), lvl2)):
+        for k in range(call['i'] + 1, rep1.get('ncalls', 0)):
+            jobs.append((c, cmd, o1 + ['--kill', '%d:entry' % k], 'fail%d+kill@%d:entry' % (e, k), call))
+            jobs.append((c, cmd, o1 + ['--kill', '%d:exit' % k], 'fail%d+kill@%d:exit' % (e, k), call))
     res = pmap(lambda j: one(j[:3]), jobs)
     for (c, cmd, opts, label, call), rep in zip(jobs, res):
         evals += 1
